@@ -13,3 +13,29 @@ Proof. vm_compute. reflexivity. Qed.
 Lemma drop_helpers_do_not_relock :
   lru_relock = false /\ fifo_relock = false /\ random_relock = false.
 Proof. vm_compute. repeat split; reflexivity. Qed.
+
+(** every access to table, list links, nodes (also through aliases), cap,
+    stats counters and the wrapped cache lies between lock and unlock *)
+Lemma api_accesses_inside : forallb sk_accesses_inside c14_api_locks = true.
+Proof. vm_compute. reflexivity. Qed.
+
+(** Len, Cap, Peek only read, under the read lock; all other cache methods
+    work under the write lock (the model's [op_is_read]) *)
+Lemma readers_and_writers :
+  forallb sk_is_reader c14_reader_locks = true /\ forallb sk_is_writer c14_writer_locks = true
+  /\ length c14_reader_locks = 9%nat /\ (length c14_reader_locks + length c14_writer_locks = length c14_cache_api_locks)%nat.
+Proof. vm_compute. repeat split; reflexivity. Qed.
+
+(** the two mutexes guard disjoint state: cache methods touch only table,
+    list, nodes and cap; StatsRecorder methods only its counters and the
+    reference to the wrapped cache *)
+Lemma lock_domains :
+  forallb (sk_fields_in [FTable; FList; FNode; FCap]) c14_cache_api_locks = true
+  /\ forallb (sk_fields_in [FStats; FInner]) c14_stats_api_locks = true.
+Proof. vm_compute. split; reflexivity. Qed.
+
+(** no function outside the methods reaches shared state without the lock:
+    the lock-free helpers are called only from methods (where the skeletons
+    inline them); no closure or go statement inside a method *)
+Lemma no_unlocked_entry : c14_unlocked_entry_points = 0%Z.
+Proof. reflexivity. Qed.
